@@ -22,10 +22,14 @@ Ghost0 == [g |-> FALSE, m |-> FALSE, open |-> <<>>, mixed |-> FALSE]
 \* cover pickle.load only; the ML environment covers all four.
 Exp(g, m, ctx) == [i \in BI |-> m \/ (i = 1 /\ (g \/ ctx))]
 
-\* P1 (lower bound, every step): asked-for protections are in force
+\* P1 (lower bound, every step): asked-for protections are in force.  `blocks` is observed with a probe
+\* that both the static check and the ML allowlist refuse; `mlb` with a probe only the ML allowlist
+\* refuses (a global the static check rates LIKELY_SAFE): while the ML environment is active it must be
+\* refused through all four entry points whatever else is layered on top of pickle.load.
 LowerOK(blocks, x) ==
   /\ x.m => \A i \in BI : blocks[i]
   /\ ((x.g \/ x.open # <<>>) /\ ~x.mixed) => blocks[1]
+MLOK(mlb, x) == x.m => \A i \in BI : mlb[i]
 
 \* P3: after removal with no context open all four bindings are the original functions
 RemoveOK(orig, x) == x.open = <<>> => \A i \in BI : orig[i]
@@ -43,8 +47,8 @@ ExitSucc(x, blocks) ==
        IN {[g |-> g2, m |-> m2, open |-> rest, mixed |-> (IF n2 = 0 THEN FALSE ELSE x.mixed)] :
               <<g2, m2>> \in {p \in gs \X ms : \E c \in cs : blocks = Exp(p[1], p[2], c)}}
 
-Succ(x, op, blocks, orig) ==
-  LET keep(y) == IF LowerOK(blocks, y) THEN {y} ELSE {} IN
+Succ(x, op, blocks, orig, mlb) ==
+  LET keep(y) == IF LowerOK(blocks, y) /\ MLOK(mlb, y) THEN {y} ELSE {} IN
   CASE op = "arm" -> keep(Glob(x, TRUE, x.m))
     [] op \in {"activate", "activate_add"} -> keep(Glob(x, x.g, TRUE))
     [] op = "remove" -> LET y == Glob(x, FALSE, FALSE) IN IF RemoveOK(orig, y) THEN keep(y) ELSE {}
